@@ -8,6 +8,8 @@
 for a file set) its `cpdef`/`ioatt` lines are read (`scanWiring`) and the machine's external port
 counts and bonds are compared with them (`Basm.wiringAgrees`); a difference is one more reason.  `AL n0,n1,…`
 (instruction counts of the assembly a front-end saved next to the machine): processor k must hold n_k ROM words.
+`PB` (sent for bondgo machines): every processor input must be the sink of a bond and every processor output the
+driver of one (`cpK:output-N-not-bonded`).
   When a machine uses opcodes outside the shared layout table
   its verdict is printed but the reason list says so (`opcode-unmodelled-or-wrong-mode`) and the
   opcodes are listed: the driver reports such instances as *unmodelled*, not as ill-formed.
@@ -22,6 +24,7 @@ structure St where
   bm : Option BM := none
   wire : Option Basm.Source := none   -- the `cpdef`/`ioatt` lines of the source, when the harness sent its text
   asm : List Nat := []                -- instruction counts of the assembly the front-end saved per processor (`AL`)
+  portsBonded : Bool := false         -- `PB`: the front-end only creates ports it connects: none may be left open
 
 def unmodelled (bm : BM) : List String :=
   (bm.cps.flatMap fun cp => cp.arch.ops.filter fun op => (layout op).isNone).eraseDups
@@ -43,9 +46,18 @@ def asmReason (asm : List Nat) (bm : BM) : List String :=
   (bm.cps.zip asm).zipIdx.filterMap fun ((cp, n), k) =>
     if cp.prog.length == n then none else some s!"cp{k}:program-length-differs-from-emitted-assembly[{cp.prog.length}/{n}]"
 
-def verdict (wire : Option Basm.Source) (asm : List Nat) (bm0 : BM) : String :=
+/-- every input of every processor is the sink of a bond, every output the driver of one -/
+def openPorts (bm : BM) : List String :=
+  let bs := Topology.bonds bm.topo
+  bm.cps.zipIdx.flatMap fun (cp, k) =>
+    ((List.range cp.arch.n).filterMap fun i =>
+      if bs.any (fun b => b.2 == ⟨2, k, i⟩) then none else some s!"cp{k}:input-{i}-not-bonded") ++
+    ((List.range cp.arch.m).filterMap fun o =>
+      if bs.any (fun b => b.1 == ⟨3, k, o⟩) then none else some s!"cp{k}:output-{o}-not-bonded")
+
+def verdict (wire : Option Basm.Source) (asm : List Nat) (pb : Bool) (bm0 : BM) : String :=
   let bm := finishBM bm0
-  let wr := wiringReason wire bm ++ asmReason asm bm
+  let wr := wiringReason wire bm ++ asmReason asm bm ++ (if pb then openPorts bm else [])
   let ok := WfBM bm && wr.isEmpty
   let rs := WfBM.explain bm ++ wr
   let um := unmodelled bm
@@ -57,13 +69,14 @@ def step (st : St) (line : String) : St × List String :=
   | "CASE" :: _ => ({}, [line])
   | "F" :: "S" :: _ => ({ st with wire := scanWiring (((line.drop 4).toString).splitOn "\\n") }, [line])
   | "F" :: _ => (st, [line])
+  | ["PB"] => ({ st with portsBonded := true }, [])
   | ["AL", ns] => ({ st with asm := (commaList ns).map nat! }, [])
   | "FS" :: _ => ({ st with wire := scanWiring (((line.drop 3).toString).splitOn "\\n") }, [])
   | "R" :: _ => (st, [line])
   | "M" :: _ => ({ st with bm := some (bmLine default line) }, [])
   | "E" :: _ =>
     match st.bm with
-    | some bm => ({}, [verdict st.wire st.asm bm])
+    | some bm => ({}, [verdict st.wire st.asm st.portsBonded bm])
     | none => (st, ["WF ? no-machine"])
   | _ =>
     match st.bm with
